@@ -5,9 +5,17 @@
 // pool program the run with every site ascending is compared with every single-site deviation
 // (descending; every permutation for maps of <= 4 entries) and every pair of deviating sites.
 // (ii) every insertion sequence of <= 4 distinct keys into arrays and objects must be
-// enumerated back in insertion order. (iii) every ordered pair (A, B) of pool programs: B on a
-// fresh VM after A must behave like B alone in a brand-new process. (iv) every pool program run
-// twice through the real CLI gives identical stdout / stderr / exit status.
+// enumerated back in insertion order; and (hist.go) every HISTORY of set / overwrite / unset /
+// re-insert ops over <= 4 keys, on every way a container can be born (list-backed, map-backed,
+// auto-vivified, constructor results, nested, by reference; stdClass, declared class, $this, ...),
+// read back through every enumeration route, each with all map ranges ascending and descending;
+// plus bulk histories that cross deletion / compaction thresholds. (iii) every ordered pair (A, B)
+// of pool programs: B on a fresh VM after A must behave like B alone in a brand-new process -
+// through the in-process route (captured output writer) AND through the CLI route (cliroute.go:
+// file + LoadAndRun + ShowControl + shutdown callbacks; stdout, stderr and exit status byte for
+// byte), with a pool that pairs every kind of end state of A (output / var_dump only / silent /
+// open buffers / handlers / died) with every kind of diagnostic B can end in. (iv) every pool
+// program run repeatedly through the real CLI gives identical stdout / stderr / exit status.
 package main
 
 import (
@@ -76,16 +84,16 @@ func findProg(name string) prog {
 func pool_() []prog { return programs }
 
 type rec struct {
-	Kind    string   `json:"kind"`
-	N       int64    `json:"n,omitempty"`
-	Key     string   `json:"key,omitempty"`
-	Clause  string   `json:"clause,omitempty"`
-	Detail  string   `json:"detail,omitempty"`
-	Size    int      `json:"size,omitempty"`
-	Case    any      `json:"case,omitempty"`
-	Sites   []string `json:"sites,omitempty"`
-	Outcome string   `json:"outcome,omitempty"`
-	Sample  any      `json:"sample,omitempty"`
+	Kind    string         `json:"kind"`
+	N       int64          `json:"n,omitempty"`
+	Key     string         `json:"key,omitempty"`
+	Clause  string         `json:"clause,omitempty"`
+	Detail  string         `json:"detail,omitempty"`
+	Size    int            `json:"size,omitempty"`
+	Case    any            `json:"case,omitempty"`
+	Sites   []string       `json:"sites,omitempty"`
+	Outcome string         `json:"outcome,omitempty"`
+	Sample  any            `json:"sample,omitempty"`
 	Stats   map[string]int `json:"stats,omitempty"`
 	Raw     *rawFail       `json:"raw,omitempty"`
 }
@@ -124,10 +132,16 @@ func orderWorker(w *pool.W, arg json.RawMessage) {
 		return
 	}
 	hits := map[string]int{}
-	base := runWithOrder(p.Src, map[string]int{}, hits)
-	again := runWithOrder(p.Src, map[string]int{}, nil)
+	// in-process runs inside a long-lived worker: a set_time_limit deadline left behind by a program
+	// this worker ran earlier must not kill a later run (see evalScriptDir)
+	inProc := func(sel map[string]int, hits map[string]int) obsv {
+		core.SetExecutionDeadline(0)
+		return runWithOrder(p.Src, sel, hits)
+	}
+	base := inProc(map[string]int{}, hits)
+	again := inProc(map[string]int{}, nil)
 	var n int64 = 2
-	run := func(sel map[string]int) obsv { return runWithOrder(p.Src, sel, nil) }
+	run := func(sel map[string]int) obsv { return inProc(sel, nil) }
 	if base != again {
 		// the program leaves residue that changes its own next run (clause iii reports that);
 		// for the map-order clause every run of it is made in a brand-new process instead
@@ -346,14 +360,13 @@ type execSpec struct {
 }
 
 type execResult struct {
-	Obs      obsv              `json:"obs"`
-	// Infeasible: an earlier program of the spec ended through os.Exit (exit(), the time limit, the
-	// VM's default uncaught handler). In reality the process is gone at that point, so "the next
+	Obs obsv `json:"obs"`
+	// Infeasible: an earlier program of the spec ended through os.Exit (exit(), the time limit). In reality the process is gone at that point, so "the next
 	// program in the same process" does not exist; the harness only got here because it turns
 	// os.Exit into a panic.
-	Infeasible bool `json:"infeasible,omitempty"`
-	Carriers []string          `json:"carriers,omitempty"`
-	Shapes   map[string]string `json:"shapes,omitempty"` // expr -> shape of the value when the last program first read it
+	Infeasible bool              `json:"infeasible,omitempty"`
+	Carriers   []string          `json:"carriers,omitempty"`
+	Shapes     map[string]string `json:"shapes,omitempty"` // expr -> shape of the value when the last program first read it
 }
 
 // shape renders a value coarsely (two levels): enough to tell "nil vs set", lengths and scalars
@@ -549,7 +562,7 @@ func pairWork(w *pool.W, arg json.RawMessage, cli bool) {
 		return
 	}
 	solo := sr.Obs
-	var n, infeasible int64
+	var n, infeasible, unconfirmed int64
 	for _, a := range pool_() {
 		if (cliOnly[a.Name] || cliOnly[bname]) && !cli {
 			continue
@@ -572,6 +585,13 @@ func pairWork(w *pool.W, arg json.RawMessage, cli bool) {
 		if pr.Obs == solo {
 			continue
 		}
+		// a residue is deterministic: the difference has to show again in a second brand-new process
+		// (this keeps a process that was starved for seconds on a loaded machine - e.g. across a
+		// set_time_limit deadline - from being reported)
+		if pr2, err := selfExec(execSpec{Progs: []string{a.Name, bname}, Trace: true, CLI: cli, Dir: dir}); err != nil || pr2.Obs != pr.Obs {
+			unconfirmed++
+			continue
+		}
 		// carriers: package-level locations A wrote, B read before overwriting, and whose value at
 		// that read differs (coarsely) from what B alone sees there
 		var car []string
@@ -592,7 +612,7 @@ func pairWork(w *pool.W, arg json.RawMessage, cli bool) {
 		w.Emit(rec{Kind: "fail", Key: key, Clause: "fresh-vm-independence", Size: len(a.Src) + len(b.Src), Case: map[string]any{"a": a.Name, "b": bname, "cli": cli},
 			Detail: fmt.Sprintf("B=%q alone in a new process"+route+": %s\nB on a fresh VM after A=%q: %s\npackage-level variables written by A and read by B with a different value than B alone sees: %v (all candidates: %v)", bname, solo, a.Name, pr.Obs, car, pr.Carriers)})
 	}
-	w.Emit(rec{Kind: "count", N: n, Stats: map[string]int{"pairs-skipped:A-ended-through-os.Exit": int(infeasible)}})
+	w.Emit(rec{Kind: "count", N: n, Stats: map[string]int{"pairs-skipped:A-ended-through-os.Exit": int(infeasible), "pair-differences-not-reproduced-in-a-second-process": int(unconfirmed)}})
 	if f := flakyChildCrashes.Swap(0); f > 0 {
 		w.Emit(rec{Kind: "flaky", N: f})
 	}
@@ -643,6 +663,8 @@ func main() {
 	for _, p := range programs {
 		shards = append(shards, pool.Shard{Kind: "pairc", Arg: p.Name})
 	}
+	// histories: quick = every history of <= 5 ops over <= 4 keys; thorough adds 6 ops over <= 4 keys
+	// and 7 ops over <= 3 keys
 	maxLen := 5
 	if !c.Quick() {
 		maxLen = 7
@@ -652,8 +674,12 @@ func main() {
 		for i := 3; i < n; i++ {
 			of *= 4
 		}
+		keys := 4
+		if n >= 7 {
+			keys = 3
+		}
 		for s := 0; s < of; s++ {
-			shards = append(shards, pool.Shard{Kind: "hist", Arg: map[string]int{"Len": n, "Shard": s, "Of": of}})
+			shards = append(shards, pool.Shard{Kind: "hist", Arg: map[string]int{"Len": n, "Keys": keys, "Shard": s, "Of": of}})
 		}
 	}
 	for s := 0; s < 8; s++ {
@@ -772,7 +798,7 @@ func main() {
 	c.Set("range_sites_with_2plus_entries_hit", sites)
 	c.Set("ordered_pairs", len(programs)*len(programs))
 	c.Set("history_max_ops", maxLen)
-	c.Assume("the CLI route runs a pool program the way cmd.RunScriptFile does (file, fresh parser+VM, std+php libraries, LoadAndRun, ShowControl, shutdown callbacks) but inside the harness process; a pair whose first program ends through os.Exit (exit(), the default uncaught handler) is not a reachable state of a real process and is skipped")
+	c.Assume("the CLI route runs a pool program the way cmd.RunScriptFile does (file, fresh parser+VM, std+php libraries, LoadAndRun, ShowControl, shutdown callbacks) but inside the harness process; the VM's uncaught handler prints through the parser's ShowControl like the default one but does not end the process (what any embedder that runs several programs has to do); a pair whose first program ends through os.Exit (exit(), the execution time limit) is not a reachable state of a real process and is skipped")
 	c.Assume("for OBJECT properties the meaning of unset is left open (origami assigns null or ignores it, PHP removes the property): any one of the three readings must explain every enumeration route of the container; for arrays unset removes the entry and a later set of the key is a new insertion")
 	c.Assume("nondeterminism that is not routed through a Go map range with an ordered key type (pointer-keyed maps, time, OS, addresses) is not controlled; Go pointer values printed inside diagnostics are masked")
 	c.Assume("order dependences that need three or more deviating range sites at once are outside the bound")
@@ -782,7 +808,7 @@ func main() {
 	}
 	os.RemoveAll(progDir)
 	runner.Cleanup()
-	c.Finish(int64(len(programs)*len(programs)+len(sites)), total, total, fmt.Sprintf("%d pool programs x (all-ascending baseline + every single-site deviation incl. all permutations of maps <= 4 entries + every pair of deviating sites); all insertion sequences of <= 4 distinct keys from a pool of 6 into arrays and objects; every set/unset history of <= %d ops over <= 4 keys (up to key renaming) x 4 key assignments x every container birth x every enumeration route, each with all Go map ranges ascending and descending, plus bulk histories crossing deletion thresholds; all %d ordered pairs (A;B) vs B alone in a new process, through the in-process route and through the CLI route (stdout, stderr and exit status byte for byte); CLI repetitions", len(programs), maxLen, len(programs)*len(programs)))
+	c.Finish(int64(len(programs)*len(programs)+len(sites)), total, total, fmt.Sprintf("%d pool programs x (all-ascending baseline + every single-site deviation incl. all permutations of maps <= 4 entries + every pair of deviating sites); all insertion sequences of <= 4 distinct keys from a pool of 6 into arrays and objects; every set/unset history of <= %d ops over <= 4 keys (7 ops: <= 3 keys; up to key renaming) x 4 key assignments x every container birth x every enumeration route, each with all Go map ranges ascending and descending, plus bulk histories crossing deletion thresholds; all %d ordered pairs (A;B) vs B alone in a new process, through the in-process route and through the CLI route (stdout, stderr and exit status byte for byte); CLI repetitions", len(programs), maxLen, len(programs)*len(programs)))
 }
 
 func replay(c *ev.Check) {
